@@ -65,7 +65,7 @@ def scenarios(tier):
         out.append(Scenario('ondemand', ev='connect', tail=tail, nodet=True))
 
     # a stop / rm that completes while the socket-event start of an on-demand watcher is between two spawns
-    for op in ('stop', 'rm'):
+    for op in ('stop', 'rm', 'stop-all'):      # (stop-all: a stop without a name goes through the arbiter's own helper)
         out.append(Scenario('ondemand-race', op=op, E=1))
         # ... or that is still in flight (workers that ignore the stop signal) when that start spawns its next worker
         out.append(Scenario('ondemand-race', op=op, E=1, pat='stubborn'))
@@ -489,6 +489,8 @@ def _run_ondemand_race(scn, ch, res):
         if state['req'] is not None:
             return []
         props = {'name': 'od', 'waiting': True}
+        if scn.op == 'stop-all':
+            return [_Op(Req('stop', label='stop-all', waiting=True), state)]
         return [_Op(Req(scn.op, **props), state)]
     try:
         world.boot()
